@@ -27,10 +27,10 @@ out.append("\n------------------------------------------------------------------
 out.append(rd("design/70_seeded_intro.md") if os.path.exists(os.path.join(V, "design/70_seeded_intro.md")) else "")
 if os.path.exists(rf):
     res = json.load(open(rf))
-    out.append("| seeded change | site | what it breaks / what it needs | caught by (baseline) | own check after strengthening |\n|---|---|---|---|---|")
+    out.append("| seeded change | site | what it breaks / what it needs | caught by (baseline) | own check after strengthening | last full re-run (all 237, after wave 7) |\n|---|---|---|---|---|---|")
     for k in sorted(res):
         r = res[k]
-        out.append("| %s | %s | %s — needs: %s | %s | %s |" % (k, r.get("site", ""), r.get("what_breaks", "").replace("|", "\\|"), r.get("needs_to_manifest", "").replace("|", "\\|"), r.get("caught_by", ""), r.get("after_strengthening", "not re-run")))
+        out.append("| %s | %s | %s — needs: %s | %s | %s | %s |" % (k, r.get("site", ""), r.get("what_breaks", "").replace("|", "\\|"), r.get("needs_to_manifest", "").replace("|", "\\|"), r.get("caught_by", ""), r.get("after_strengthening", "not re-run"), r.get("full_rerun_after_wave7", "")))
 else:
     out.append("(runs pending)\n")
 open(os.path.join(V, "DESIGN.md"), "w").write("\n".join(out) + "\n")
